@@ -25,8 +25,9 @@ CREATE = ['bin', 'hex', 'bytes', 'bytearray', 'memoryview', 'memoryview_ro', 'me
           'bitarray', 'bitarray_kw', 'bitarray_little', 'uint', 'file', 'str', 'fromstring']
 EXTERNAL = {'bytearray', 'memoryview', 'memoryview_ro', 'memoryview_slice_ro', 'bytes_kw_bytearray', 'bytes_kw_memoryview_ro', 'array', 'bitarray', 'bitarray_kw', 'bitarray_little'}
 DERIVE = ['construct', 'bits_kw', 'copycopy', 'dotcopy', 'slice', 'add', 'invert', 'mul', 'and', 'andself', 'orself', 'xor', 'lshift', 'join', 'pack', 'readbits',
-          'cut', 'split', 'unpack', 'dotbits', 'underscore_copy', 'radd_str']
-MUTATE = ['append', 'prepend', 'invert_all', 'set0', 'clear', 'reverse', 'overwrite', 'insert', 'imul', 'setitem', 'ilshift', 'del', 'replace', 'byteswap', 'bits_assign']
+          'cut', 'split', 'unpack', 'dotbits', 'underscore_copy', 'radd_str', 'lshift_all', 'rshift_all', 'radd_lit_empty', 'add_empty', 'radd_empty']
+MUTATE = ['append', 'prepend', 'invert_all', 'set0', 'clear', 'reverse', 'overwrite', 'insert', 'imul', 'setitem', 'ilshift', 'del', 'replace', 'byteswap', 'bits_assign',
+          'clear', 'append_obj', 'prepend_obj', 'iadd_obj', 'insert_obj', 'overwrite_obj', 'clear_then_prepend_obj', 'clear_then_append_obj']
 MUT_FN = {  # the same mutation on the str model / as a Coq function on bits
     'append': (lambda d: d + '1', 'fun b => b ++ [true]'),
     'prepend': (lambda d: '0' + d, 'fun b => false :: b'),
@@ -44,7 +45,9 @@ def gen_cases(rng, tier):
             r = rng.random()
             if nobj == 0 or r < 0.3:
                 n = rng.choice([8, 16, 24, 32])
-                steps.append({'op': 'create', 'how': rng.choice(CREATE), 'cls': rng.choice(CLASSES), 'bits': rand_bits(rng, n), 'reuse': rng.random() < 0.5})
+                how = rng.choice(CREATE)
+                if rng.random() < 0.1: n, how = 0, 'bin'          # an empty object (the empty-operand fast paths)
+                steps.append({'op': 'create', 'how': how, 'cls': rng.choice(CLASSES), 'bits': rand_bits(rng, n), 'reuse': rng.random() < 0.5})
                 nobj += 1
             elif r < 0.65:
                 steps.append({'op': 'derive', 'how': rng.choice(DERIVE), 'cls': rng.choice(CLASSES), 'src': rng.randrange(nobj)})
@@ -54,7 +57,7 @@ def gen_cases(rng, tier):
             else:
                 ext = [j for j, s_ in enumerate(x for x in steps if x['op'] in ('create', 'derive')) if s_.get('how') in EXTERNAL]
                 steps.append({'op': 'mutate_external', 'target': rng.choice(ext) if ext and rng.random() < 0.8 else rng.randrange(nobj)})
-        yield {'op': 'history', 'steps': steps}
+        yield {'op': 'history', 'steps': steps, 'lsb0': rng.random() < 0.2}
 
 def kind(c): return 'history'
 
@@ -63,6 +66,8 @@ def run_impl(c):
     from bitstring import Bits, BitArray, pack
     clear_caches()
     objs, externals, tmp = [], {}, []
+    lits = {}              # object index -> the literal it was parsed from
+    bitstring.options.lsb0 = bool(c.get('lsb0'))
     cache_strings = []     # newest first, mirrors the model's cache list
     trace = []
     def snapshot():
@@ -82,7 +87,7 @@ def run_impl(c):
                 op = st['op']
                 if op == 'create':
                     C = cls_of(st['cls']); b = st['bits']; how = st['how']; n = len(b)
-                    raw = int(b, 2).to_bytes(n // 8, 'big')
+                    raw = int(b, 2).to_bytes(n // 8, 'big') if n else b''
                     if how == 'bin': o = C(bin=b)
                     elif how == 'hex': o = C(hex=format(int(b, 2), f'0{n // 4}x'))
                     elif how == 'bytes': o = C(bytes=raw)
@@ -118,11 +123,12 @@ def run_impl(c):
                         info['hit'] = cache_strings.index(s) if s in cache_strings else None
                         if s not in cache_strings: cache_strings.insert(0, s)
                         info['sbits'] = s[2:]
+                        lits[len(objs)] = s
                         o = C(s) if how == 'str' else C.fromstring(s)
                     objs.append(o); return None
                 if op == 'derive':
                     s = objs[st['src']]; C = cls_of(st['cls']); how = st['how']
-                    if len(s) == 0 and how in ('invert', 'lshift', 'cut', 'split', 'mul', 'and', 'xor'): how = 'slice'   # these refuse or skip empty operands
+                    if len(s) == 0 and how in ('invert', 'lshift', 'cut', 'split', 'mul', 'and', 'xor', 'lshift_all', 'rshift_all'): how = 'slice'   # these refuse or skip empty operands
                     if how == 'construct': o = C(s)
                     elif how == 'bits_kw': o = C(bits=s)
                     elif how == 'copycopy': o = _copy.copy(s)
@@ -145,6 +151,13 @@ def run_impl(c):
                     elif how == 'dotbits': o = s.bits
                     elif how == 'underscore_copy': o = s._copy()
                     elif how == 'radd_str': o = '0b1' + s
+                    elif how == 'lshift_all': o = s << len(s)                       # shifts everything out
+                    elif how == 'rshift_all': o = s >> (len(s) + 3)
+                    elif how == 'add_empty': o = s + C()                           # an empty operand on either side
+                    elif how == 'radd_empty': o = C() + s
+                    elif how == 'radd_lit_empty':
+                        lit = lits.get(st['src'])
+                        o = (lit + C()) if lit is not None else s[1:]             # a cached literal + an empty mutable/immutable object
                     info['same_object'] = o is s
                     objs.append(o); return None
                 if op == 'mutate':
@@ -165,6 +178,13 @@ def run_impl(c):
                     elif how == 'replace': t.replace('0b1', '0b00')
                     elif how == 'byteswap': t.byteswap()
                     elif how == 'bits_assign': t.bits = objs[st['other']]
+                    elif how == 'append_obj': t.append(objs[st['other']])
+                    elif how == 'prepend_obj': t.prepend(objs[st['other']])
+                    elif how == 'iadd_obj': t += objs[st['other']]
+                    elif how == 'insert_obj': t.insert(objs[st['other']], 0)
+                    elif how == 'overwrite_obj': t.overwrite(objs[st['other']], 0)
+                    elif how == 'clear_then_prepend_obj': t.clear(); t.prepend(objs[st['other']])
+                    elif how == 'clear_then_append_obj': t.clear(); t.append(objs[st['other']])
                     return None
                 if op == 'mutate_external':
                     i = st['target']; t = objs[i]
@@ -242,8 +262,8 @@ def coq_check(c, obs):
             if how == 'construct': ops.append(f"HConstruct {COQ_CLS[st['cls']]} {src}")
             elif how == 'bits_kw': ops.append(f"HBitsKw {COQ_CLS[st['cls']]} {src}")
             elif how in ('copycopy', 'dotcopy', 'andself', 'orself'): ops.append(f"HCopyCopy {src}")   # s & s / s | s take the `bs is self` shortcut: self.copy()
-            elif how == 'join':
-                # join builds on s = self.__class__(): a store of its own that went through __init__ (flagged for the immutable classes),
+            elif how == 'join' or (how == 'rshift_all' and before[st['src']][2] > 0):
+                # join (and >>, which starts from self.__class__(length=n)) builds on a store of its own that went through __init__ (flagged for the immutable classes),
                 # then extended in place - the store flow of HNew, not of the object.__new__ derivations
                 ops.append(f"HNew {COQ_CLS[after[-1][0]]} {cbits(after[-1][1])}")
             else:
